@@ -87,7 +87,7 @@ func cfgC11(tier string) e1Cfg {
 	t := baseTxn()
 	t.PInsert, t.PDelete, t.PUpdate, t.InsertAllPct, t.PAbort, t.PFailInsert, t.MaxOps, t.SwallowPct = 45, 35, 20, 40, 12, 10, 8, 30
 	return e1Cfg{Prop: "C11", Kinds: []Kind{KInt, KInt16, KUint64, KFloat32, KBool, KString, KStringCat, KEnum, KRecord, KRecordMerge, KInt64Mul}, KeyedPct: 15, LayoutPct: 70,
-		Steps: steps(tier, 130, 420), Pool: "edge", Txn: t, DumpEvery: 1, Oracles: oracleSet("live", "values"), DensePct: 7, Interlope: true, PDelAll: 4}
+		Steps: steps(tier, 130, 420), Pool: "edge", Txn: t, DumpEvery: 1, Oracles: oracleSet("live", "values", "index"), DensePct: 7, Interlope: true, PDelAll: 4, NIdx: 2, PIdxChg: 1}
 }
 
 func cfgC12(tier string) e1Cfg {
@@ -210,6 +210,12 @@ func init() {
 		if p.id == "C19" {
 			mp.add(racePlan(4, 40), func(w *W, idx int) {
 				withWatchdog(w, idx, fmt.Sprintf("E3:trigger-beside-drops:round%d", idx), 5*time.Minute, func() { triggerRound(w, idx) })
+			})
+		}
+		if p.id == "C16" {
+			// sorted indexes created while writers commit (the index-build rounds of C03; their last part checks Ascend)
+			mp.add(racePlan(2, 20), func(w *W, idx int) {
+				withWatchdog(w, idx, fmt.Sprintf("E3:index-build-beside-writers:round%d", idx), 5*time.Minute, func() { indexBuildRound(w, idx) })
 			})
 		}
 		if p.id == "C03" {
